@@ -11,10 +11,12 @@
 (*   Lagrange: [#E]P = O for every point.                                  *)
 (* One leaf state per curve (a, b); a ranges over ASet (all of F_p2 or      *)
 (* {0, 1, u, -3}), b over all of F_p2 (BSet = "all") or b_1 in {0, 1}.      *)
-(* The same states check that the balanced-recursion evaluators of         *)
-(* model/CurveXB are the definitions: XMulB = XMulNat (all points, all     *)
-(* scalars 0..MaxK), TPowB = TExp on F_p2, PMulB = PMulNat on the curve    *)
-(* y^2 = x^3 + a_0 x + b_0 over F_p when that is nonsingular.              *)
+(* The same states check the balanced-recursion evaluators of             *)
+(* model/CurveXB (and of the libraries): XMulB = the LINEAR once-per-bit   *)
+(* double-and-add (XMulLin) = XMulNat, and [k+1]Q = [k]Q + Q (the k-fold   *)
+(* repeated group operation) for all points and all scalars 0..MaxK;       *)
+(* TPowB = TPowLin = TExp and x^(k+1) = x^k x on F_p2; PMulB = PMulLin =   *)
+(* PMulNat on the curve y^2 = x^3 + a_0 x + b_0 over F_p when nonsingular. *)
 (***************************************************************************)
 EXTENDS CurveXB, FiniteSets, TLC
 CONSTANTS p, usq, ASet, BSet, AssocAll, AssocStep, MaxK
@@ -28,6 +30,18 @@ El(n0, n1) == <<BFromNat(n0), BFromNat(n1)>>
 AVals == IF ASet = "all" THEN F2 ELSE {El(0, 0), El(1, 0), El(0, 1), El(p - 3, 0)}
 
 Crv == [T |-> T, k |-> 1, a |-> a, b |-> b]
+
+(* the textbook definitions: one recursion step per scalar bit, most significant first *)
+RECURSIVE XMulLin(_, _, _, _, _), PMulLin(_, _, _, _, _), TPowLin(_, _, _, _)
+XMulLin(n, Q, c, i, acc) ==
+    IF i < 0 THEN acc
+    ELSE LET d == XDbl(acc, c) IN XMulLin(n, Q, c, i - 1, IF BBit(n, i) = 1 THEN XAdd(d, Q, c) ELSE d)
+PMulLin(n, Q, c, i, acc) ==
+    IF i < 0 THEN acc
+    ELSE LET d == PDbl(acc, c) IN PMulLin(n, Q, c, i - 1, IF BBit(n, i) = 1 THEN PAdd(d, Q, c) ELSE d)
+TPowLin(x, e, i, acc) ==
+    IF i < 0 THEN acc
+    ELSE LET s == TMul(T, 1, acc, acc) IN TPowLin(x, e, i - 1, IF BBit(e, i) = 1 THEN TMul(T, 1, s, x) ELSE s)
 M(x, y) == TMul(T, 1, x, y)
 Disc == TAdd(T, 1, TScale(T, 1, M(M(a, a), a), BMod(<<4>>, P)), TScale(T, 1, M(b, b), BMod(<<27>>, P)))
 Nonsingular == ~TIsZero(T, 1, Disc)
@@ -65,17 +79,26 @@ GroupLaw ==
         /\ \A Q \in pts : XDbl(Q, c) = XAdd(Q, Q, c)
         /\ \A Q \in pts, R \in QR, S \in QR : XAdd(XAdd(Q, R, c), S, c) = XAdd(Q, XAdd(R, S, c), c)
         /\ \A Q \in pts : XMulNat(BFromNat(n), Q, c) = O                                   \* Lagrange
-        /\ \A Q \in pts : \A k \in 0..MaxK : XMulB(BFromNat(k), Q, c) = XMulNat(BFromNat(k), Q, c)
+        /\ \A Q \in pts : \A k \in 0..MaxK :
+              LET kk == BFromNat(k)  X == XMulB(kk, Q, c) IN
+              /\ X = XMulNat(kk, Q, c) /\ X = XMulLin(kk, Q, c, BBits(kk) - 1, O)
+              /\ XMulB(BFromNat(k + 1), Q, c) = XAdd(X, Q, c)                             \* repeated operation
         /\ \A Q \in pts : XMulB(BFromNat(n + 1), Q, c) = Q /\ XMulSB(TRUE, BFromNat(n - 1), Q, c) = Q
 
 (* the balanced evaluators over F_p2 and over the prime-field curve with the F_p parts of (a, b) *)
 Balanced ==
-    /\ \A k \in 0..MaxK : TPowB(T, 1, a, BFromNat(k)) = TExp(T, 1, a, BFromNat(k))
+    /\ \A x \in {a, b} : \A k \in 0..MaxK :
+          LET kk == BFromNat(k)  y == TPowB(T, 1, x, kk) IN
+          /\ y = TExp(T, 1, x, kk) /\ y = TPowLin(x, kk, BBits(kk) - 1, TOne(T, 1))
+          /\ TPowB(T, 1, x, BFromNat(k + 1)) = TMul(T, 1, y, x)
     /\ TPowB(T, 1, b, BFromNat(p * p)) = b                                                  \* x^(p^2) = x in F_p2
     /\ LET c1 == [p |-> P, a |-> a[1], b |-> b[1]]
            nonsing == FAdd(FMul(BMod(<<4>>, P), FMul(FSqr(c1.a, P), c1.a, P), P), FMul(BMod(<<27>>, P), FSqr(c1.b, P), P), P) # <<>>
            pts1 == TLCEval(UNION {{Pt(x, y) : y \in {z \in F0 : FSqr(z, P) = Rhs(x, c1)}} : x \in F0})
-       IN  nonsing => \A Q \in pts1 : \A k \in 0..MaxK : PMulB(BFromNat(k), Q, c1) = PMulNat(BFromNat(k), Q, c1)
+       IN  nonsing => \A Q \in pts1 : \A k \in 0..MaxK :
+                          LET kk == BFromNat(k)  X == PMulB(kk, Q, c1) IN
+                          /\ X = PMulNat(kk, Q, c1) /\ X = PMulLin(kk, Q, c1, BBits(kk) - 1, PInf)
+                          /\ PMulB(BFromNat(k + 1), Q, c1) = PAdd(X, Q, c1)
 
 Check == ph = 2 => (GroupLaw /\ Balanced)
 =============================================================================
